@@ -58,8 +58,14 @@ noncomputable def log2 : XR → XR
   | pinf => pinf | _ => nan
 end XR
 
+/-- the window constant of `LogSum` (500 in the double routines, 50 in the float ones) -/
+class Window where
+  W : ℝ
+  pos : 0 < W
+
 open Classical in
-noncomputable instance instVInfXR : VInf XR where
+/-- the extended-real instance, for a given window constant -/
+noncomputable instance instVInfXR [Window] : VInf XR where
   lt := XR.lt
   add := XR.add
   sub := XR.sub
@@ -77,7 +83,11 @@ noncomputable instance instVInfXR : VInf XR where
   exp := XR.exp
   log := XR.log
   exp2 := XR.exp2
-  inWindow m x := XR.lt (XR.sub m (XR.fin 500)) x
+  inWindow m x := XR.lt (XR.sub m (XR.fin Window.W)) x
+
+section window
+variable [Window]
+local notation "W" => Window.W
 
 /-- a log-probability: `-∞` or a real -/
 def XR.isLogP : XR → Prop
@@ -95,7 +105,7 @@ def finites : List XR → List ℝ
 @[simp] theorem x_inf : (VInf.inf : XR) = XR.pinf := rfl
 @[simp] theorem x_exp (a : XR) : VInf.exp a = XR.exp a := rfl
 @[simp] theorem x_log (a : XR) : VInf.log a = XR.log a := rfl
-@[simp] theorem x_inWindow (m x : XR) : VInf.inWindow m x = XR.lt (XR.sub m (XR.fin 500)) x := rfl
+@[simp] theorem x_inWindow (m x : XR) : VInf.inWindow m x = XR.lt (XR.sub m (XR.fin W)) x := rfl
 @[simp] theorem x_add (a b : XR) : a + b = XR.add a b := rfl
 @[simp] theorem x_sub (a b : XR) : a - b = XR.sub a b := rfl
 
@@ -229,7 +239,7 @@ theorem vmax_logp (v : List XR) (hne : v ≠ []) (hv : ∀ x ∈ v, x.isLogP) :
 
 /-! ### LogSum -/
 /-- the sum the code forms: terms within 500 log units of the maximum, shifted by the maximum -/
-noncomputable def keptSum (M : ℝ) (l : List ℝ) : ℝ := ((l.filter fun a => decide (M - 500 < a)).map fun a => Real.exp (a - M)).sum
+noncomputable def keptSum (M : ℝ) (l : List ℝ) : ℝ := ((l.filter fun a => decide (M - W < a)).map fun a => Real.exp (a - M)).sum
 noncomputable def shiftedSum (M : ℝ) (l : List ℝ) : ℝ := (l.map fun a => Real.exp (a - M)).sum
 
 theorem window_fold (M : ℝ) (xs : List XR) (hxs : ∀ x ∈ xs, x.isLogP) (c : ℝ) :
@@ -249,16 +259,16 @@ theorem window_fold (M : ℝ) (xs : List XR) (hxs : ∀ x ∈ xs, x.isLogP) (c :
       simp only [this, Bool.false_eq_true, ↓reduceIte]
       rw [ih hxs' c]; simp [finites]
     | fin a =>
-      have e1 : VInf.inWindow (XR.fin M) (XR.fin a) = decide (M + -500 < a) := rfl
+      have e1 : VInf.inWindow (XR.fin M) (XR.fin a) = decide (M + -W < a) := rfl
       have e2 : (XR.fin c + VInf.exp (XR.fin a - XR.fin M)) = XR.fin (c + Real.exp (a + -M)) := rfl
       rw [e1, e2]
-      by_cases h : M - 500 < a
-      · have h' : M + -500 < a := by linarith
+      by_cases h : M - W < a
+      · have h' : M + -W < a := by linarith
         simp only [h', decide_true, ↓reduceIte]
         rw [ih hxs' _]
         simp only [finites, keptSum, List.filter_cons, h, decide_true, ↓reduceIte, List.map_cons, List.sum_cons]
         congr 1; rw [show a + -M = a - M from by ring]; ring
-      · have h' : ¬ M + -500 < a := by intro hh; apply h; linarith
+      · have h' : ¬ M + -W < a := by intro hh; apply h; linarith
         simp only [h', decide_false, Bool.false_eq_true, ↓reduceIte]
         rw [ih hxs' _]
         simp [finites, keptSum, List.filter_cons, h]
@@ -278,30 +288,30 @@ theorem keptSum_ge_one (M : ℝ) (l : List ℝ) (h : M ∈ l) : 1 ≤ keptSum M 
     unfold keptSum
     rcases List.mem_cons.mp h with e | e
     · subst e
-      have : M - 500 < M := by linarith
+      have : M - W < M := by linarith [Window.pos]
       simp only [List.filter_cons, this, decide_true, ↓reduceIte, List.map_cons, List.sum_cons, sub_self, Real.exp_zero]
       have := keptSum_nonneg M l
       unfold keptSum at this; linarith
     · have := ih e
       unfold keptSum at this
-      by_cases hh : M - 500 < a
+      by_cases hh : M - W < a
       · simp only [List.filter_cons, hh, decide_true, ↓reduceIte, List.map_cons, List.sum_cons]
         have := Real.exp_pos (a - M); linarith
       · simp only [List.filter_cons, hh, decide_false, Bool.false_eq_true, ↓reduceIte]; exact this
 
 theorem shifted_bounds (M : ℝ) (l : List ℝ) :
-    keptSum M l ≤ shiftedSum M l ∧ shiftedSum M l ≤ keptSum M l + l.length * Real.exp (-500) := by
+    keptSum M l ≤ shiftedSum M l ∧ shiftedSum M l ≤ keptSum M l + l.length * Real.exp (-W) := by
   induction l with
   | nil => simp [keptSum, shiftedSum]
   | cons a l ih =>
     obtain ⟨h1, h2⟩ := ih
     unfold keptSum shiftedSum at *
-    by_cases hh : M - 500 < a
+    by_cases hh : M - W < a
     · simp only [List.filter_cons, hh, decide_true, ↓reduceIte, List.map_cons, List.sum_cons, List.length_cons, Nat.cast_add, Nat.cast_one]
-      have := Real.exp_pos (-500 : ℝ)
+      have := Real.exp_pos (-W : ℝ)
       constructor <;> nlinarith
     · simp only [List.filter_cons, hh, decide_false, Bool.false_eq_true, ↓reduceIte, List.map_cons, List.sum_cons, List.length_cons, Nat.cast_add, Nat.cast_one]
-      have hle : Real.exp (a - M) ≤ Real.exp (-500) := Real.exp_le_exp.mpr (by linarith [not_lt.mp hh])
+      have hle : Real.exp (a - M) ≤ Real.exp (-W) := Real.exp_le_exp.mpr (by linarith [not_lt.mp hh])
       have hpos := Real.exp_pos (a - M)
       constructor <;> nlinarith
 
@@ -357,7 +367,7 @@ theorem logSum_all_ninf (v : List XR) (hne : v ≠ []) (hv : ∀ x ∈ v, x = XR
     the finite entries (`-∞` entries contribute probability 0) -/
 theorem logSum_spec (v : List XR) (hv : ∀ x ∈ v, x.isLogP) (hfin : finites v ≠ []) :
     ∃ r : ℝ, logSum v = some (XR.fin r) ∧
-      |r - Real.log ((finites v).map Real.exp).sum| ≤ v.length * Real.exp (-500) := by
+      |r - Real.log ((finites v).map Real.exp).sum| ≤ v.length * Real.exp (-W) := by
   have hne : v ≠ [] := by rintro rfl; exact hfin rfl
   rcases vmax_logp v hne hv with ⟨_, h2⟩ | ⟨M, h1, h2, h3⟩
   · exact absurd h2 hfin
@@ -377,17 +387,17 @@ theorem logSum_spec (v : List XR) (hv : ∀ x ∈ v, x.isLogP) (hfin : finites v
       rw [this]; rfl
     · rw [sum_exp_shift M, Real.log_mul (ne_of_gt (Real.exp_pos M)) (ne_of_gt hSpos), Real.log_exp]
       have hlog_le : Real.log (keptSum M (finites v)) ≤ Real.log (shiftedSum M (finites v)) := Real.log_le_log hkpos hb1
-      have hdiff : Real.log (shiftedSum M (finites v)) - Real.log (keptSum M (finites v)) ≤ (finites v).length * Real.exp (-500) := by
+      have hdiff : Real.log (shiftedSum M (finites v)) - Real.log (keptSum M (finites v)) ≤ (finites v).length * Real.exp (-W) := by
         rw [← Real.log_div (ne_of_gt hSpos) (ne_of_gt hkpos)]
-        have hq : shiftedSum M (finites v) / keptSum M (finites v) ≤ 1 + (finites v).length * Real.exp (-500) := by
+        have hq : shiftedSum M (finites v) / keptSum M (finites v) ≤ 1 + (finites v).length * Real.exp (-W) := by
           rw [div_le_iff₀ hkpos]
-          have hnn : 0 ≤ ((finites v).length : ℝ) * Real.exp (-500) := mul_nonneg (Nat.cast_nonneg _) (le_of_lt (Real.exp_pos _))
+          have hnn : 0 ≤ ((finites v).length : ℝ) * Real.exp (-W) := mul_nonneg (Nat.cast_nonneg _) (le_of_lt (Real.exp_pos _))
           nlinarith
         have hqpos : 0 < shiftedSum M (finites v) / keptSum M (finites v) := div_pos hSpos hkpos
         have := Real.log_le_sub_one_of_pos hqpos
         linarith
       have hlen : ((finites v).length : ℝ) ≤ v.length := by exact_mod_cast finites_length_le v
-      have hep := Real.exp_pos (-500 : ℝ)
+      have hep := Real.exp_pos (-W : ℝ)
       rw [abs_le]
       constructor <;> nlinarith
 
@@ -505,7 +515,7 @@ theorem logNorm_spec (v : List XR) (hv : ∀ x ∈ v, x.isLogP) (hfin : finites 
 @[simp] theorem x_exp2 (a : XR) : VInf.exp2 a = XR.exp2 a := rfl
 @[simp] theorem x_log2 (a : XR) : VNum.log2 a = XR.log2 a := rfl
 
-noncomputable def keptSum2 (M : ℝ) (l : List ℝ) : ℝ := ((l.filter fun a => decide (M - 500 < a)).map fun a => (2 : ℝ) ^ (a - M)).sum
+noncomputable def keptSum2 (M : ℝ) (l : List ℝ) : ℝ := ((l.filter fun a => decide (M - W < a)).map fun a => (2 : ℝ) ^ (a - M)).sum
 noncomputable def shiftedSum2 (M : ℝ) (l : List ℝ) : ℝ := (l.map fun a => (2 : ℝ) ^ (a - M)).sum
 
 theorem two_rpow_pos (t : ℝ) : 0 < (2 : ℝ) ^ t := Real.rpow_pos_of_pos (by norm_num) t
@@ -527,16 +537,16 @@ theorem window_fold2 (M : ℝ) (xs : List XR) (hxs : ∀ x ∈ xs, x.isLogP) (c 
       simp only [this, Bool.false_eq_true, ↓reduceIte]
       rw [ih hxs' c]; simp [finites]
     | fin a =>
-      have e1 : VInf.inWindow (XR.fin M) (XR.fin a) = decide (M + -500 < a) := rfl
+      have e1 : VInf.inWindow (XR.fin M) (XR.fin a) = decide (M + -W < a) := rfl
       have e2 : (XR.fin c + VInf.exp2 (XR.fin a - XR.fin M)) = XR.fin (c + (2 : ℝ) ^ (a + -M)) := rfl
       rw [e1, e2]
-      by_cases h : M - 500 < a
-      · have h' : M + -500 < a := by linarith
+      by_cases h : M - W < a
+      · have h' : M + -W < a := by linarith
         simp only [h', decide_true, ↓reduceIte]
         rw [ih hxs' _]
         simp only [finites, keptSum2, List.filter_cons, h, decide_true, ↓reduceIte, List.map_cons, List.sum_cons]
         congr 1; rw [show a + -M = a - M from by ring]; ring
-      · have h' : ¬ M + -500 < a := by intro hh; apply h; linarith
+      · have h' : ¬ M + -W < a := by intro hh; apply h; linarith
         simp only [h', decide_false, Bool.false_eq_true, ↓reduceIte]
         rw [ih hxs' _]
         simp [finites, keptSum2, h]
@@ -556,30 +566,30 @@ theorem keptSum2_ge_one (M : ℝ) (l : List ℝ) (h : M ∈ l) : 1 ≤ keptSum2 
     unfold keptSum2
     rcases List.mem_cons.mp h with e | e
     · subst e
-      have : M - 500 < M := by linarith
+      have : M - W < M := by linarith [Window.pos]
       simp only [List.filter_cons, this, decide_true, ↓reduceIte, List.map_cons, List.sum_cons, sub_self, Real.rpow_zero]
       have := keptSum2_nonneg M l
       unfold keptSum2 at this; linarith
     · have := ih e
       unfold keptSum2 at this
-      by_cases hh : M - 500 < a
+      by_cases hh : M - W < a
       · simp only [List.filter_cons, hh, decide_true, ↓reduceIte, List.map_cons, List.sum_cons]
         have := two_rpow_pos (a - M); linarith
       · simp only [List.filter_cons, hh, decide_false, Bool.false_eq_true, ↓reduceIte]; exact this
 
 theorem shifted_bounds2 (M : ℝ) (l : List ℝ) :
-    keptSum2 M l ≤ shiftedSum2 M l ∧ shiftedSum2 M l ≤ keptSum2 M l + l.length * (2 : ℝ) ^ (-500 : ℝ) := by
+    keptSum2 M l ≤ shiftedSum2 M l ∧ shiftedSum2 M l ≤ keptSum2 M l + l.length * (2 : ℝ) ^ (-W : ℝ) := by
   induction l with
   | nil => simp [keptSum2, shiftedSum2]
   | cons a l ih =>
     obtain ⟨h1, h2⟩ := ih
     unfold keptSum2 shiftedSum2 at *
-    by_cases hh : M - 500 < a
+    by_cases hh : M - W < a
     · simp only [List.filter_cons, hh, decide_true, ↓reduceIte, List.map_cons, List.sum_cons, List.length_cons, Nat.cast_add, Nat.cast_one]
-      have := two_rpow_pos (-500 : ℝ)
+      have := two_rpow_pos (-W : ℝ)
       constructor <;> nlinarith
     · simp only [List.filter_cons, hh, decide_false, Bool.false_eq_true, ↓reduceIte, List.map_cons, List.sum_cons, List.length_cons, Nat.cast_add, Nat.cast_one]
-      have hle : (2 : ℝ) ^ (a - M) ≤ (2 : ℝ) ^ (-500 : ℝ) :=
+      have hle : (2 : ℝ) ^ (a - M) ≤ (2 : ℝ) ^ (-W : ℝ) :=
         Real.rpow_le_rpow_of_exponent_le (by norm_num) (by linarith [not_lt.mp hh])
       have hpos := two_rpow_pos (a - M)
       constructor <;> nlinarith
@@ -596,7 +606,7 @@ theorem sum_exp2_shift (M : ℝ) (l : List ℝ) : (l.map fun a => (2 : ℝ) ^ a)
 /-- `Log2Sum` on log2-probabilities with a finite entry: within `n·2^{-500}/ln 2` of `log2 Σ 2^{x_i}` over the finite entries -/
 theorem log2Sum_spec (v : List XR) (hv : ∀ x ∈ v, x.isLogP) (hfin : finites v ≠ []) :
     ∃ r : ℝ, log2Sum v = some (XR.fin r) ∧
-      |r - Real.logb 2 ((finites v).map fun a => (2 : ℝ) ^ a).sum| ≤ v.length * (2 : ℝ) ^ (-500 : ℝ) / Real.log 2 := by
+      |r - Real.logb 2 ((finites v).map fun a => (2 : ℝ) ^ a).sum| ≤ v.length * (2 : ℝ) ^ (-W : ℝ) / Real.log 2 := by
   have hne : v ≠ [] := by rintro rfl; exact hfin rfl
   rcases vmax_logp v hne hv with ⟨_, h2⟩ | ⟨M, h1, h2, h3⟩
   · exact absurd h2 hfin
@@ -618,22 +628,24 @@ theorem log2Sum_spec (v : List XR) (hv : ∀ x ∈ v, x.isLogP) (hfin : finites 
     · rw [sum_exp2_shift M, Real.logb_mul (ne_of_gt (two_rpow_pos M)) (ne_of_gt hSpos),
         Real.logb_rpow (by norm_num) (by norm_num)]
       have hlog_le : Real.log (keptSum2 M (finites v)) ≤ Real.log (shiftedSum2 M (finites v)) := Real.log_le_log hkpos hb1
-      have hdiff : Real.log (shiftedSum2 M (finites v)) - Real.log (keptSum2 M (finites v)) ≤ (finites v).length * (2 : ℝ) ^ (-500 : ℝ) := by
+      have hdiff : Real.log (shiftedSum2 M (finites v)) - Real.log (keptSum2 M (finites v)) ≤ (finites v).length * (2 : ℝ) ^ (-W : ℝ) := by
         rw [← Real.log_div (ne_of_gt hSpos) (ne_of_gt hkpos)]
-        have hq : shiftedSum2 M (finites v) / keptSum2 M (finites v) ≤ 1 + (finites v).length * (2 : ℝ) ^ (-500 : ℝ) := by
+        have hq : shiftedSum2 M (finites v) / keptSum2 M (finites v) ≤ 1 + (finites v).length * (2 : ℝ) ^ (-W : ℝ) := by
           rw [div_le_iff₀ hkpos]
-          have hnn : 0 ≤ ((finites v).length : ℝ) * (2 : ℝ) ^ (-500 : ℝ) := mul_nonneg (Nat.cast_nonneg _) (le_of_lt (two_rpow_pos _))
+          have hnn : 0 ≤ ((finites v).length : ℝ) * (2 : ℝ) ^ (-W : ℝ) := mul_nonneg (Nat.cast_nonneg _) (le_of_lt (two_rpow_pos _))
           nlinarith
         have hqpos : 0 < shiftedSum2 M (finites v) / keptSum2 M (finites v) := div_pos hSpos hkpos
         have := Real.log_le_sub_one_of_pos hqpos
         linarith
       have hlen : ((finites v).length : ℝ) ≤ v.length := by exact_mod_cast finites_length_le v
-      have hep := two_rpow_pos (-500 : ℝ)
-      have hbound : Real.log (shiftedSum2 M (finites v)) - Real.log (keptSum2 M (finites v)) ≤ v.length * (2 : ℝ) ^ (-500 : ℝ) := by nlinarith
+      have hep := two_rpow_pos (-W : ℝ)
+      have hbound : Real.log (shiftedSum2 M (finites v)) - Real.log (keptSum2 M (finites v)) ≤ v.length * (2 : ℝ) ^ (-W : ℝ) := by nlinarith
       have e : Real.logb 2 (keptSum2 M (finites v)) + M - (M + Real.logb 2 (shiftedSum2 M (finites v)))
           = -((Real.log (shiftedSum2 M (finites v)) - Real.log (keptSum2 M (finites v))) / Real.log 2) := by
         simp only [Real.logb]; field_simp; ring
       rw [e, abs_neg, abs_of_nonneg (div_nonneg (by linarith) (le_of_lt hl2))]
       exact div_le_div_of_nonneg_right hbound (le_of_lt hl2)
+
+end window
 
 end EaselModel.Vec
